@@ -229,3 +229,52 @@ func verifH_C02_decoys() {
 	verifAssert(r != nil && r.Value != nil && r.Value.Description == "file", "C02 decoys: an internal reference inside a whole-file element resolves to the object of the file that contains it")
 	verifReach("end")
 }
+
+//verif:harness id=C02 tier=quick,thorough witness=end,failed_again,repaired bounds="one Loader, one location, two loads (LoadFromDataWithPath / LoadFromURI): a first document that fails to load (dangling schema reference, dangling response reference, reference to the wrong kind), then either the same text again - it fails again, it is not answered with the half-resolved document of the first attempt - or the repaired text: it loads with every reference resolved"
+func verifH_C02_loader_reuse_same_location() {
+	doc := func(comps string) string {
+		return `{"openapi":"3.0.0","info":{"title":"t","version":"1"},"paths":{"/a":{"get":{"parameters":[{"$ref":"#/components/parameters/P"}],"responses":{"200":{"$ref":"#/components/responses/R"}}}}},"components":{` + comps + `}}`
+	}
+	good := doc(`"schemas":{"Thing":{"type":"string","minLength":3},"User":{"$ref":"#/components/schemas/Thing"}},"parameters":{"P":{"name":"p","in":"query","schema":{"$ref":"#/components/schemas/Thing"}}},"responses":{"R":{"description":"d"}}`)
+	bad := []string{
+		doc(`"schemas":{"User":{"$ref":"#/components/schemas/Thing"}},"parameters":{"P":{"name":"p","in":"query","schema":{"$ref":"#/components/schemas/Thing"}}},"responses":{"R":{"description":"d"}}`),
+		doc(`"schemas":{"Thing":{"type":"string"},"User":{"$ref":"#/components/schemas/Thing"}},"parameters":{"P":{"name":"p","in":"query","schema":{"$ref":"#/components/schemas/Thing"}}}`),
+		doc(`"schemas":{"Thing":{"type":"string"},"User":{"$ref":"#/components/parameters/P"}},"parameters":{"P":{"name":"p","in":"query","schema":{"$ref":"#/components/schemas/Thing"}}},"responses":{"R":{"description":"d"}}`),
+	}[verifChoose("first", 3)]
+	loader := NewLoader()
+	loader.IsExternalRefsAllowed = true
+	current := bad
+	loader.ReadFromURIFunc = func(_ *Loader, u *url.URL) ([]byte, error) {
+		if u.Path == "/r/one.json" {
+			return []byte(current), nil
+		}
+		return nil, errors.New("no such file")
+	}
+	load := func(which int) (*T, error) {
+		if which == 0 {
+			return loader.LoadFromDataWithPath([]byte(current), &url.URL{Path: "/r/one.json"})
+		}
+		return loader.LoadFromURI(&url.URL{Path: "/r/one.json"})
+	}
+	d1, err1 := load(verifChoose("entry1", 2))
+	verifAssert(err1 != nil && d1 == nil, "C02 same location: the first document fails to load")
+	if verifChoose("repaired", 2) == 0 {
+		d2, err2 := load(verifChoose("entry2", 2))
+		verifReach("failed_again")
+		verifAssert(err2 != nil && d2 == nil, "C02 same location: loading the same failing document again fails again (no half-resolved document is returned as loaded)")
+		verifReach("end")
+		return
+	}
+	current = good
+	d2, err := load(verifChoose("entry2", 2))
+	verifReach("repaired")
+	verifAssert(err == nil && d2 != nil, "C02 same location: the repaired document loads")
+	if err != nil || d2 == nil {
+		return
+	}
+	u := d2.Components.Schemas["User"]
+	p := d2.Paths.Value("/a").Get.Parameters[0]
+	r := d2.Paths.Value("/a").Get.Responses.Value("200")
+	verifAssert(u != nil && u.Value != nil && u.Value.MinLength == 3 && p != nil && p.Value != nil && p.Value.Schema != nil && p.Value.Schema.Value != nil && p.Value.Schema.Value.MinLength == 3 && r != nil && r.Value != nil, "C02 same location: every reference of the repaired document is resolved")
+	verifReach("end")
+}
